@@ -100,6 +100,18 @@ package postprocess
 //@     invariant 0 <= loopphi(1, 1)+1 && loopphi(1, 1)+1 < len(members) && m == members[loopphi(1, 1)+1]
 //@     invariant forall b in 0..phi1+1 :: has(memberSet, m.DependsOnFetchIDs[b]) || has(seen, m.DependsOnFetchIDs[b])
 
+// C08: when a duplicate fetch is merged away, its dependents are rewired in the WHOLE tree: nothing orders a dependent
+// after the fetch it depends on in the flat list, and an id that is left dangling counts as satisfied for the scheduler
+//@ func deduplicateSingleFetches.ProcessFetchTree
+//@   requires d != nil && root != nil
+//@   at call replaceDependsOnFetchID: assert {dependents.are.rewired.in.the.whole.tree.wherever.they.are.listed} arg0 == root
+//@   modifies *
+//@   safety none
+//@   loop 0:
+//@     invariant true
+//@   loop 1:
+//@     invariant true
+
 // rewiring after a fetch was merged away: every child of every (nested) group is either a group that is recursed
 // into with the same ids, or a single fetch whose dependency list is scanned
 //@ func replaceDependsOnFetchID
